@@ -151,3 +151,153 @@ def att_names(ctx, tier, seed):
                                 fails.append({"case": a, "detail": f"{att2idx(a)}", "inputs": {"att": a}})
     return _res("att2idx/att2name over table-generated names", f"all {len(seen)} (name, depth) pairs x indices <= {maxi}",
                 cases, fails, exhaustive=False)
+
+
+# ------------------------------------------------------------------------------------------------- reader
+def _frames(rnd):
+    from pyubx2 import UBXMessage
+    ubx = [UBXMessage("NAV", "NAV-CLOCK", 0, iTOW=rnd.randrange(1 << 20)).serialize(),
+           UBXMessage("ACK", "ACK-ACK", 0, clsID=6, msgID=1).serialize(),
+           UBXMessage(b"\x0a", b"\x04", 0, payload=b"\x00" * 40).serialize(),
+           b"\xb5\x62\x01\x22\x00\x00\x23\x6a"]
+    nmea = [b"$GNGLL,5327.04319,N,00214.41396,W,223232.00,A,A*68\r\n", b"$GPTXT,01,01,02,ANTSTATUS=OK*3B\r\n",
+            b"$PUBX,41,1,0007,0003,19200,0*25\r\n"]
+    rtcm = [bytes.fromhex("d300133ed7d30202980edeef34b4bd62ac0941986f33360b98"), b"\xd3\x00\x00\x47\xea\x4b"]
+    return ubx, nmea, rtcm
+
+
+def _mk_stream(rnd):
+    ubx, nmea, rtcm = _frames(rnd)
+    parts = []
+    for _ in range(rnd.randrange(0, 6)):
+        r = rnd.random()
+        if r < 0.3:
+            f = rnd.choice(ubx)
+        elif r < 0.5:
+            f = rnd.choice(nmea)
+        elif r < 0.65:
+            f = rnd.choice(rtcm)
+        elif r < 0.8:
+            f = bytes(rnd.choice([0xB5, 0x62, 0x24, 0x47, 0xD3, 0x00, 0x0A, 0x01, 0xFF]) for _ in range(rnd.randrange(1, 6)))
+        else:
+            f = bytearray(rnd.choice(ubx + nmea + rtcm))
+            if f:
+                f[rnd.randrange(len(f))] ^= 1 << rnd.randrange(8)
+            f = bytes(f)
+        parts.append(f)
+    s = b"".join(parts)
+    if rnd.random() < 0.4 and s:
+        s = s[:rnd.randrange(len(s) + 1)]
+    return s
+
+
+def spec_vs_reader(ctx, tier, seed):
+    """the executable step specification, iterated natively, against the real UBXReader on seeded streams"""
+    import io
+    import os
+    import types
+    import contracts.specs as specs
+    from pyubx2 import UBXReader
+    # run the specification text natively in a private namespace (the module object used by the symbolic
+    # executor is left untouched)
+    src = open(os.path.join(os.path.dirname(specs.__file__), "reader_spec.py")).read()
+    rs = types.SimpleNamespace()
+    ns = {"ext_parse": specs.n_ext_parse, "eol": specs.n_eol, "is_nmea_hdr2": specs.n_is_nmea_hdr2}
+    exec(compile(src, "reader_spec.py", "exec"), ns)
+    rs.__dict__.update(ns)
+    rnd = random.Random(seed + 607)
+    n = 1500 if tier == "quick" else 40000
+    fails = []
+    cases = 0
+    for i in range(n):
+        data = _mk_stream(rnd)
+        pf = rnd.randrange(8)
+        parsing = rnd.random() < 0.8
+        val = rnd.randrange(2)
+        mode = rnd.choice([0, 0, 0, 1, 2, 3])
+        pbf = rnd.randrange(2)
+        q = rnd.choice([0, 1])
+        reports = []
+        rd = UBXReader(io.BytesIO(data), protfilter=pf, parsing=parsing, validate=val, msgmode=mode, parsebitfield=pbf,
+                       quitonerror=q, errorhandler=lambda e: reports.append(e))
+        real = []
+        try:
+            for raw, parsed in rd:
+                real.append((raw, None if parsed is None else str(parsed)))
+        except Exception as e:  # noqa
+            real.append(("EXC", type(e).__name__))
+        spec = []
+        nrep = 0
+        pos = 0
+        guard = 0
+        while True:
+            guard += 1
+            kind, pos, raw, parsed, err = rs.spec_step(data, pos, True, pf, parsing, val, mode, pbf, 1)
+            if kind == rs.EOF_ or guard > 100000:
+                break
+            if kind == rs.ITEM:
+                spec.append((raw, None if parsed is None else str(parsed)))
+            if kind == rs.REJECT and q == 1:
+                nrep += 1
+        cases += 1
+        if real != spec or len(reports) != nrep:
+            fails.append({"case": f"stream:{data.hex()}", "detail": f"pf={pf} parsing={parsing} val={val} mode={mode} q={q}: "
+                          f"real {len(real)} items / {len(reports)} reports, spec {len(spec)} items / {nrep} reports",
+                          "inputs": {"data": data.hex(), "protfilter": pf, "parsing": parsing, "validate": val,
+                                     "msgmode": mode, "quitonerror": q}})
+    return _res("spec_step iterated == real UBXReader iteration (items and error reports)", f"{n} seeded streams", cases, fails)
+
+
+def tcp_loopback(ctx, tier, seed):
+    """real TCP delivery from a concurrent sender thread with random chunking vs. reading the same bytes from BytesIO"""
+    import io
+    import socket
+    import threading
+    import time as _t
+    from pyubx2 import UBXReader
+    rnd = random.Random(seed + 1010)
+    n = 12 if tier == "quick" else 150
+    fails = []
+    cases = 0
+    for i in range(n):
+        data = b"".join(_mk_stream(rnd) for _ in range(4))
+        want = [(r, str(p)) for r, p in UBXReader(io.BytesIO(data), quitonerror=0)]
+        srv = socket.socket()
+        srv.bind(("127.0.0.1", 0))
+        srv.listen(1)
+        port = srv.getsockname()[1]
+        chunks = []
+        j = 0
+        while j < len(data):
+            m = rnd.randrange(1, 40)
+            chunks.append(data[j:j + m])
+            j += m
+        close = rnd.random() < 0.5
+
+        def sender():
+            c, _ = srv.accept()
+            for ch in chunks:
+                c.sendall(ch)
+                if rnd.random() < 0.2:
+                    _t.sleep(0.001)
+            if close:
+                c.close()
+            else:
+                _t.sleep(0.5)
+                c.close()
+
+        th = threading.Thread(target=sender, daemon=True)
+        th.start()
+        cl = socket.create_connection(("127.0.0.1", port))
+        cl.settimeout(0.25)
+        got = [(r, str(p)) for r, p in UBXReader(cl, quitonerror=0, bufsize=rnd.choice([1, 7, 64, 4096]))]
+        cl.close()
+        th.join(2)
+        srv.close()
+        cases += 1
+        # the socket reader may stop before a trailing partial frame that the file reader drops: compare delivered items
+        if got != want[:len(got)] or (len(got) < len(want) and False):
+            fails.append({"case": f"tcp:{data.hex()[:80]}", "detail": f"{len(got)} items vs {len(want)}", "inputs": {"data": data.hex()}})
+        elif len(got) != len(want):
+            fails.append({"case": f"tcp-count:{data.hex()[:80]}", "detail": f"{len(got)} items vs {len(want)}", "inputs": {"data": data.hex()}})
+    return _res("real loopback TCP with a concurrent sender thread vs BytesIO", f"{n} seeded streams, random chunking/bufsize/close-or-timeout", cases, fails)
